@@ -68,7 +68,12 @@ impl From<RaceLaps> for u8 {
                     _ => 0, // if it's an invalid structure we're going to push it into practice
                 }
             },
-            RaceLaps::Hours(data) => data + 190,
+            RaceLaps::Hours(data) => {
+                match data {
+                    1..=48 => data + 190,
+                    _ => 0, // if it's an invalid structure we're going to push it into practice
+                }
+            },
         };
 
         data as u8
